@@ -45,7 +45,7 @@ Definition M (name : Z) (tags : list (Z * Z)) (c ts : option Z) (vs us : option 
   {| m_name := hx name; m_tags := map (fun kv => (hx (fst kv), hx (snd kv))) tags;
      m_counter := c; m_ts := ts; m_value := vs; m_unique := us; m_hist := hs |}.
 
-Inductive efmt := ETL | EMP | EPB (packed : bool).
+Inductive efmt := ETL | EMP | EPB (packed : bool) | EPBMin.
 (* what the real decoder delivered, relative to the reference canon(b) computed on the Go side as well *)
 Inductive obs := OCanon | OList (ms : list dmetric).
 
@@ -96,7 +96,7 @@ Definition ok (c : case) : bool :=
   match c with
   | CEnc f b pkt ofmt o oend =>
       let bs := hxs pkt in
-      let enc := match f with ETL => enc_tl b | EMP => enc_mp b | EPB p => enc_pb p b end in
+      let enc := match f with ETL => enc_tl b | EMP => enc_mp b | EPB p => enc_pb p b | EPBMin => enc_pb_min b end in
       let ms := match o with OCanon => map canon b | OList l => l end in
       bytes_eqb enc bs
       && (outcome_is (run (faithful big_limit) bs) ofmt ms oend || outcome_is (run repaired bs) ofmt ms oend)
